@@ -42,7 +42,8 @@ META = {
                    "(unguarded since the repairs a31cbfe/036aad8; uses the proved facts that dotted revnos are distinct and "
                    "a development line is a left-hand chain). NOT proved: exactness of with-merges ranges and the per-file "
                    "clause (oracle only: per-file logs by delta matching and by the per-file graph must list exactly the "
-                   "revisions that touched the file id, across renames and batch boundaries; two known findings there)."),
+                   "revisions that touched the file id, across renames and batch boundaries; one known finding there: "
+                   "forward per-file logs)."),
     "level_note": ("Trusted: Coq kernel, vm_compute, the hand model's correspondence (bounded sampling), vcsgraph merge_sort "
                    "and graph queries as modelled (compared on every run). Only local bzr 2a branches without ghosts on "
                    "walked left-hand histories; the per-file filters have an oracle but no model (linear histories with "
@@ -201,7 +202,15 @@ def corpus():
             _log_case(g2, 8, 4, None, False, 0, 0, False),
             # the same ranges with the end given: fine
             _log_case(g2, 8, 4, 8, True, 1, 0, False),
-            _log_case(g2, 8, 4, 8, False, 0, 0, False)]
+            _log_case(g2, 8, 4, 8, False, 0, 0, False),
+            # C25-rename-at-batch-start (844065f): the renaming revision is the first of the second batch
+            {"kind": "file", "n": 14, "forward": False, "target": "f",
+             "events": [["add"], ["mod"], ["other"], ["other"], ["ren"], ["other"], ["other"], ["mod"], ["other"],
+                        ["other"], ["mod"], ["other"], ["other"], ["mod"]]},
+            # ... and of the first batch (the tip itself renames the file)
+            {"kind": "file", "n": 13, "forward": False, "target": "f",
+             "events": [["add"], ["mod"], ["other"], ["other"], ["mod"], ["other"], ["other"], ["mod"], ["other"],
+                        ["other"], ["mod"], ["other"], ["ren"]]}]
 
 
 def cases(rng, tier):
@@ -468,26 +477,7 @@ def oracle(inp, obs):
     return None
 
 
-def _batch_starts(n):
-    """View indices at which make_log_rev_iterator starts a batch (9, 13, 19, ... revisions)."""
-    out, i, num = [], 0, 9
-    while i < n:
-        out.append(i)
-        i += num
-        num = min(int(num * 1.5), 200)
-    return out
-
-
 def finding_matches(fid, inp, obs, why):
-    if fid == "C25-rename-at-batch-start":
-        # reverse per-file log by delta matching: the revision that renamed the file is the
-        # first revision of a batch -> _generate_deltas mutates the file set that the lazy
-        # get_revision_deltas generator still holds -> NoSuchFile(old name)
-        if inp.get("kind") != "file" or inp["forward"] or inp["target"] != "f" or "delta matching fails" not in (why or ""):
-            return False
-        n = inp["n"]
-        starts = _batch_starts(n)
-        return any(ev[0] == "ren" and (n - 1 - i) in starts for i, ev in enumerate(inp["events"]))
     if fid == "C25-forward-file-log":
         # forward per-file logs: delta matching drops the revisions that follow the file's creation
         # inside one batch and fails with NoSuchFile for a renamed file; the per-file graph looks
